@@ -6,6 +6,7 @@ import (
 	"context"
 	"fmt"
 	"io"
+	"runtime"
 	"testing"
 
 	astits "github.com/asticode/go-astits"
@@ -600,4 +601,62 @@ func TestC03ShortSections(t *testing.T) {
 	rec.Enumerated(total)
 	rec.SetExhaustive(true)
 	rec.Sample(map[string]interface{}{"table_ids": len(c03Tables), "section_lengths": "0..24", "inputs": total})
+}
+
+// TestC03SkipRunDepth: a long run of packets rejected by a PacketSkipper must be stepped over in constant stack space -
+// a stack that grows with the run ends in a fatal stack overflow (not even a recoverable panic) on a long enough input.
+func TestC03SkipRunDepth(t *testing.T) {
+	rec := obs.NewRecorder("C03", "skip_run_depth", "deterministic: 4000 packets that a PacketSkipper rejects, followed by one it keeps, through NextPacket and NextData with packets of 188 and 192 bytes: the call depth observed inside the predicate (runtime.Callers) at the last rejected packet must not exceed the depth at the first by more than 8 frames, and the kept packet must be returned; distinct by construction")
+	defer rec.Flush()
+	const run = 4000
+	var pk []*ref.TSPacket
+	for i := 0; i < run; i++ {
+		pk = append(pk, &ref.TSPacket{PID: 0x100, HasPayload: true, CC: uint8(i), Payload: bytes.Repeat([]byte{byte(i)}, 184)})
+	}
+	pk = append(pk, &ref.TSPacket{PID: 0x101, PUSI: true, HasPayload: true, Payload: append([]byte{0, 0, 1, 0xe0, 0, 0, 0x80, 0, 0}, bytes.Repeat([]byte{7}, 175)...)})
+	stream := ref.EncodeAll(pk)
+	total := int64(0)
+	for _, size := range []int{188, 192} {
+		data := stream
+		if size != 188 {
+			data = frame(stream, size-188, func(i int) byte { return byte(0x80 | i%100) })
+		}
+		for api := 0; api < 2; api++ {
+			first, last, calls := 0, 0, 0
+			skip := func(p *astits.Packet) bool {
+				calls++
+				d := runtime.Callers(0, make([]uintptr, 8192))
+				if calls == 1 {
+					first = d
+				}
+				if p.Header.PID == 0x100 {
+					last = d
+					return true
+				}
+				return false
+			}
+			d := astits.NewDemuxer(context.Background(), bytes.NewReader(data), astits.DemuxerOptPacketSize(size), astits.DemuxerOptPacketSkipper(skip))
+			var err error
+			got := false
+			if api == 0 {
+				var p *astits.Packet
+				p, err = d.NextPacket()
+				got = p != nil && p.Header.PID == 0x101
+			} else {
+				var x *astits.DemuxerData
+				x, err = d.NextData()
+				got = x != nil && x.PID == 0x101
+			}
+			if err != nil || !got {
+				t.Fatalf("packets of %d bytes, api %d: the packet after %d skipped ones was not returned (err=%v)", size, api, run, err)
+			}
+			if calls != run+1 || last > first+8 {
+				t.Fatalf("packets of %d bytes, api %d: predicate consulted %d times; call depth %d at the first skipped packet, %d at the last of %d: the stack grows with the run of skipped packets", size, api, calls, first, last, run)
+			}
+			total++
+		}
+	}
+	rec.Enumerated(total)
+	rec.SetExhaustive(true)
+	rec.Sample(map[string]interface{}{"skipped_run": run, "configurations": total})
 }
